@@ -497,7 +497,7 @@ MIRI_TARGETS = {
 MIRI_RUSTFLAGS = {"x86avx2": "-C target-feature=+avx2"}
 
 
-def run_miri(target_key, cases, workdir, tag, shards=4, timeout=3600, no_std=False):
+def run_miri(target_key, cases, workdir, tag, shards=4, timeout=3600, no_std=False, release=False):
     """execute the cases under `cargo +nightly miri run --target ...` on the working-tree source.
     Returns (per-case outputs, crashed list, info dict or None)."""
     ensure_repo_link()
@@ -515,7 +515,7 @@ def run_miri(target_key, cases, workdir, tag, shards=4, timeout=3600, no_std=Fal
         # the op file is embedded with include_bytes!(env!("OPS_FILE")): keep ONE path per target dir so
         # that cargo's rebuild decision only depends on the file's contents (a changed env value alone
         # is not tracked under cargo-miri)
-        tdir = os.path.join(BUILD, f"t-miri-{target_key}-{k}")
+        tdir = os.path.join(BUILD, f"t-miri-{target_key}{'-rel' if release else ''}-{k}")
         os.makedirs(tdir, exist_ok=True)
         p = os.path.join(tdir, "ops.txt")
         write_ops([cases[i] for i in idx[k]], p)
@@ -526,6 +526,8 @@ def run_miri(target_key, cases, workdir, tag, shards=4, timeout=3600, no_std=Fal
         cmd = ["cargo", "+nightly", "miri", "run", "--offline", "-q", "--target", target]
         if no_std:
             cmd.append("--no-default-features")
+        if release:
+            cmd.append("--release")       # Miri ignores the optimisation level but honours the profile's debug-assertions
         return sh(cmd, cwd=cdir, env=env, timeout=timeout)
 
     outs = [None] * n
